@@ -1,5 +1,5 @@
 (** Extraction of the C14 model interpreter [m_run] and the specification interpreter [sp_run] (oracle). *)
 From Coq Require Import Extraction ExtrOcamlBasic.
-From XV Require Import C14.Spec14 C14.Hist14 C14.Model14 C14.Cert14 C14.IdMap14.
+From XV Require Import C14.Spec14 C14.Hist14 C14.Model14 C14.Cert14 C14.IdMap14 C14.SpecR14 C14.ModelR14.
 Extraction Language OCaml.
-Extraction "../ocaml/C14/gen_c14.ml" m_run sp_run range_ok m_run_certs im_run isp_run xhash.
+Extraction "../ocaml/C14/gen_c14.ml" m_run sp_run mx_run spx_run range_ok m_run_certs im_run isp_run xhash.
